@@ -187,7 +187,32 @@ def construction_case(case):
     return {"ok": True, "nt": len(ops) >= 2, "ops": k, "out": "f%d" % len(ops)}
 
 
-FUNCS = {"construction": construction_case, "term_pairs": binop, "term_coeffs": binop, "scalars": binop, "powers": powop, "sum_pairs": binop, "mixed": binop,
+def edge_case(case):
+    """{'m0': first grid index, 'm1': last}: coefficients next to the edges of the library's 1e-6 hash grid (and its half points): operators whose
+    like coefficients differ by an ulp / 1e-12 are equal as matrices to ~1e-12, far inside the 1e-8 tolerance, so they must compare equal"""
+    from orquestra.quantum.operators import PauliTerm, PauliSum
+    k = 0
+    for m in range(case["m0"], case["m1"]):
+        for c in ((m + 0.5) * 1e-6, (m + 1) * 1e-6, -(m + 0.5) * 1e-6):
+            for d in (float(np.nextafter(c, 0)), float(np.nextafter(c, 1)), c * (1 + 1e-12), c + 1e-12):
+                for mk in (lambda v: PauliTerm({0: "X"}, v), lambda v: PauliTerm({0: "X"}, complex(1.0, v)), lambda v: PauliTerm({0: "Y", 2: "Z"}, complex(v, v))):
+                    a, b = mk(c), mk(d)
+                    other = PauliTerm({1: "Z", 2: "Z"}, 1.0)
+                    k += 1
+                    if not (a == b and b == a):
+                        return {"ok": False, "msg": "terms with coefficients %r and %r (1e-12 apart) compare unequal" % (c, d), "sig": "edges:term", "ops": k}
+                    for sa, sb in ((PauliSum([a, other]), PauliSum([b, other])), (PauliSum([a, other]), PauliSum([other, b])), (PauliSum([a]), PauliSum([b]))):
+                        sa, sb = sa.simplify(), sb.simplify()
+                        if not (sa == sb and sb == sa):
+                            return {"ok": False, "msg": "simplified sums whose like coefficients are %r and %r (1e-12 apart, same matrices to 1e-12) compare unequal" % (c, d),
+                                    "expected": "equal", "observed": [repr(sa), repr(sb)], "sig": "edges:sum", "ops": k}
+                    far = mk(c + 1e-3)
+                    if PauliSum([a, other]) == PauliSum([far, other]):
+                        return {"ok": False, "msg": "sums whose coefficients differ by 1e-3 compare equal", "sig": "edges:far", "ops": k}
+    return {"ok": True, "nt": True, "ops": k, "out": "edges"}
+
+
+FUNCS = {"equality_edges": edge_case, "construction": construction_case, "term_pairs": binop, "term_coeffs": binop, "scalars": binop, "powers": powop, "sum_pairs": binop, "mixed": binop,
          "simplify": simplify_case, "equality": eq_case}
 
 PAULIS = "IXYZ"
@@ -282,4 +307,7 @@ def run(run):
             qs = sorted(int(q) for q in st)
             cases.append({"ops": st, "orders": [list(p) for p in itertools.permutations(qs)]})
     secs.append(Section("construction", cases, construction_case, desc="every string with >=2 factors built in every qubit order (dict order, product order): ==, simplify merges, sums equal"))
+    M = 4000 if thorough else 800
+    secs.append(Section("equality_edges", [{"m0": i, "m1": i + 50} for i in range(0, M, 50)], edge_case,
+                        desc="equality of operators whose coefficients straddle an edge of the 1e-6 hash grid (whole and half points, +-ulp, +-1e-12), grid indices 0..%d" % M))
     run.run_sections(secs)
